@@ -5,6 +5,7 @@ package filecache
 import (
 	"errors"
 	"io"
+	"os"
 
 	"github.com/tetratelabs/wazero/internal/verifrt"
 )
@@ -133,4 +134,82 @@ func VerifC13_AddCrash() {
 	if crashed {
 		verifrt.Cover("crash-point")
 	}
+}
+
+// verifInterleaved is a content that, between its two writes, lets another writer run.
+type verifInterleaved struct {
+	data  []byte
+	inner func()
+}
+
+func (c *verifInterleaved) Read(p []byte) (int, error) { return 0, io.EOF }
+func (c *verifInterleaved) WriteTo(w io.Writer) (int64, error) {
+	half := len(c.data) / 2
+	n, err := w.Write(c.data[:half])
+	if err != nil {
+		return int64(n), err
+	}
+	if c.inner != nil {
+		c.inner()
+	}
+	n2, err := w.Write(c.data[half:])
+	return int64(n + n2), err
+}
+
+type verifDies struct{}
+
+// VerifC13_ConcurrentWriters: two writers of the SAME key whose Add calls overlap: writer B runs while writer A is between
+// its two writes - B either completes, or dies after its first write, or its content reader fails. Whatever happens,
+// the final name afterwards holds no entry or the COMPLETE content of one of the two writers (never a mixture), and if A
+// reports success an entry is there.
+func VerifC13_ConcurrentWriters() {
+	dir := "/cache"
+	if verifrt.Symbolic() {
+		verifrt.ModelFSReset()
+	} else {
+		d, err := os.MkdirTemp("", "verifc13w")
+		if err != nil {
+			panic(err)
+		}
+		defer os.RemoveAll(d)
+		dir = d
+	}
+	fc := newFileCache(dir)
+	key := Key{1, 2, 3}
+	ba, bb := verifrt.U32("contentA"), verifrt.U32("contentB")
+	cA := []byte{byte(ba), byte(ba >> 8), byte(ba >> 16), byte(ba >> 24)}
+	cB := []byte{byte(bb), byte(bb >> 8), byte(bb >> 16)} // a different length as well
+	fateB := verifrt.Choose("fateB", 3)                    // 0 completes, 1 dies after its first write, 2 its reader fails
+	var errB error
+	inner := func() {
+		defer func() {
+			if r := recover(); r != nil {
+				if _, ok := r.(verifDies); !ok {
+					panic(r)
+				}
+			}
+		}()
+		rb := &verifInterleaved{data: cB}
+		switch fateB {
+		case 1:
+			rb.inner = func() { panic(verifDies{}) }
+		case 2:
+			errB = fc.Add(key, &verifContent{data: cB, chunks: 2, failAfter: true})
+			return
+		}
+		errB = fc.Add(key, rb)
+	}
+	errA := fc.Add(key, &verifInterleaved{data: cA, inner: inner})
+	_ = errB
+	r, found, gerr := fc.Get(key)
+	verifrt.Assert(gerr == nil, "Get reports no error")
+	if errA == nil {
+		verifrt.Assert(found, "when a writer reports success an entry is visible")
+	}
+	if found && gerr == nil {
+		got, rerr := io.ReadAll(r)
+		_ = r.Close()
+		verifrt.Assert(rerr == nil && verifrt.Or(verifSameBytes(got, cA), verifSameBytes(got, cB)), "with concurrent writers of one key the visible entry is the complete content of one of them")
+	}
+	verifrt.Cover("overlapped")
 }
